@@ -240,7 +240,13 @@ ConcCase gen_conc(const std::string& property, const std::string& tier, uint64_t
         }
         o.slot = i % c.nslots;
         ops.push_back(o);
-        if (wl.chance(0.6)) { Op q; q.k = O_QUERY; q.slot = o.slot; q.q.k = wl.chance(0.5) ? Q_LOOKUP_TP : Q_NAME; q.q.a = 1700000000; ops.push_back(q); }
+        if (wl.chance(0.6)) {
+          Op q; q.k = O_QUERY; q.slot = o.slot; q.q.k = wl.chance(0.5) ? Q_LOOKUP_TP : Q_NAME; q.q.a = 1700000000;
+          // ... or any other const operation: whatever format, parse, the transition scans or description() set up
+          // lazily on first use is then set up under contention too (the references are computed after the tasks).
+          if (wl.chance(0.5)) q.q = gen_query(&wl, shape_for_base(a.base), true);
+          ops.push_back(q);
+        }
         if (i > 0 && wl.chance(0.5)) { Op e; e.k = O_EQ; e.slot = o.slot; e.slot2 = (i - 1) % c.nslots; ops.push_back(e); }
       }
       c.tasks.push_back(ops);
